@@ -241,7 +241,7 @@ Proof.
   - destruct F as [F1 F2]. cbn [fst snd].
     assert (AB : abs o n = Idle \/ exists k, abs o n = Fetching k).
     { unfold abs. rewrite F1, F2. destruct (zassoc n (o_started o)); eauto. }
-    split; [repeat split; assumption|]. split; [reflexivity|].
+    split; [split; [exact N1|split; [exact N2|split; [exact N3|exact E]]]|]. split; [reflexivity|].
     split; [destruct AB as [-> |[k ->]]; reflexivity|].
     split; [reflexivity|destruct AB as [-> |[k ->]]; reflexivity].
 Qed.
@@ -277,7 +277,921 @@ Proof.
   - destruct F as [F1 F2]. cbn [fst snd].
     assert (AB : abs o n = Idle \/ exists k, abs o n = Requested k).
     { unfold abs. rewrite F1, F2. destruct (zassoc n (o_requested o)); eauto. }
-    split; [repeat split; assumption|]. split; [reflexivity|].
+    split; [split; [exact N1|split; [exact N2|split; [exact N3|exact E]]]|]. split; [reflexivity|].
     split; [destruct AB as [-> |[k ->]]; reflexivity|].
     split; [reflexivity|destruct AB as [-> |[k ->]]; reflexivity].
+Qed.
+
+(* ================================================================ C. nodes, flags, frames *)
+
+Definition known (g : gw) (n : Z) : bool := zhas n (g_sensors g).
+Definition reboot_flag (g : gw) (n : Z) : bool :=
+  match get_node g n with Some nd => n_reboot nd | None => false end.
+(* every node is filed under its own id *)
+Definition ids_ok (g : gw) : Prop := Forall (fun kn => n_id (snd kn) = fst kn) (g_sensors g).
+
+Lemma known_get g n : known g n = true <-> exists nd, get_node g n = Some nd.
+Proof.
+  unfold known, zhas, get_node. destruct (zassoc n (g_sensors g)) as [nd|].
+  - split; [eauto|reflexivity].
+  - split; [discriminate|intros [nd H]; discriminate].
+Qed.
+Lemma known_false g n : known g n = false <-> get_node g n = None.
+Proof. unfold known, zhas, get_node. destruct (zassoc n (g_sensors g)); split; congruence. Qed.
+
+Lemma get_node_put g nd n : get_node (put_node g nd) n = if n =? n_id nd then Some nd else get_node g n.
+Proof.
+  unfold get_node, put_node. cbn [g_sensors set_sensors].
+  destruct (Z.eqb_spec n (n_id nd)) as [->|D]; [apply zassoc_zset_same|apply zassoc_zset_other; congruence].
+Qed.
+
+Lemma ids_ok_get g k nd : ids_ok g -> get_node g k = Some nd -> n_id nd = k.
+Proof. intros I G. exact (zassoc_Forall _ _ _ _ I G). Qed.
+
+Lemma ids_ok_put g nd : ids_ok g -> ids_ok (put_node g nd).
+Proof. intro I. unfold ids_ok, put_node. cbn [g_sensors set_sensors]. apply Forall_zset; [exact I|reflexivity]. Qed.
+
+Lemma ids_ok_init cf : ids_ok (gw_init cf).
+Proof. constructor. Qed.
+
+Lemma Inv_ids_ok orc g : Inv orc g -> ids_ok g.
+Proof.
+  intros [S _]. unfold ids_ok. rewrite Forall_forall in *. intros kn I. destruct (S kn I) as [K _]. exact K.
+Qed.
+
+(* nframe: configuration kept, known nodes stay known, node ids and reboot flags kept *)
+Definition nframe (g g' : gw) : Prop :=
+  g_cf g' = g_cf g /\
+  (forall n, known g n = true -> known g' n = true) /\
+  (ids_ok g -> ids_ok g' /\ forall n, reboot_flag g' n = reboot_flag g n).
+(* frame: moreover the OTA state (firmware dictionary and the three stores) is untouched *)
+Definition frame (g g' : gw) : Prop := g_ota g' = g_ota g /\ nframe g g'.
+
+Lemma nframe_refl g : nframe g g.
+Proof. split; [reflexivity|]. split; [auto|]. intro I. split; [exact I|reflexivity]. Qed.
+Lemma frame_refl g : frame g g.
+Proof. split; [reflexivity|apply nframe_refl]. Qed.
+
+Lemma nframe_trans g1 g2 g3 : nframe g1 g2 -> nframe g2 g3 -> nframe g1 g3.
+Proof.
+  intros (C1 & K1 & F1) (C2 & K2 & F2). split; [congruence|]. split; [auto|].
+  intro I. destruct (F1 I) as [I2 R1]. destruct (F2 I2) as [I3 R2]. split; [exact I3|].
+  intro n. rewrite R2. apply R1.
+Qed.
+Lemma frame_trans g1 g2 g3 : frame g1 g2 -> frame g2 g3 -> frame g1 g3.
+Proof. intros [O1 N1] [O2 N2]. split; [congruence|eapply nframe_trans; eassumption]. Qed.
+
+(* states with the same sensors *)
+Lemma nframe_same g g' : g_sensors g' = g_sensors g -> g_cf g' = g_cf g -> nframe g g'.
+Proof.
+  intros S C. split; [exact C|]. unfold known, ids_ok, reboot_flag, get_node. rewrite S.
+  split; [auto|]. intro I. split; [exact I|reflexivity].
+Qed.
+Lemma frame_same g g' : g_sensors g' = g_sensors g -> g_cf g' = g_cf g -> g_ota g' = g_ota g -> frame g g'.
+Proof. intros S C O. split; [exact O|apply nframe_same; assumption]. Qed.
+
+Lemma frame_send g l : frame g (send g l).
+Proof. destruct (send_frame g l) as (A&B&C&_). apply frame_same; assumption. Qed.
+Lemma frame_add_job g l : frame g (add_job_send g l).
+Proof. destruct (add_job_send_frame g l) as (A&B&C&_). apply frame_same; assumption. Qed.
+Lemma frame_fold_add_job ls g : frame g (fold_left add_job_send ls g).
+Proof. destruct (fold_add_job_send_frame ls g) as (A&B&C&_). apply frame_same; assumption. Qed.
+Lemma frame_alert g m : frame g (alert g m).
+Proof. destruct (alert_frame g m) as (A&B&C&_). apply frame_same; assumption. Qed.
+Lemma frame_emit g e : frame g (emit g e).
+Proof. apply frame_same; reflexivity. Qed.
+Lemma frame_set_jobs g j : frame g (set_jobs g j).
+Proof. apply frame_same; reflexivity. Qed.
+Lemma frame_set_metric g b : frame g (set_metric g b).
+Proof. apply frame_same; reflexivity. Qed.
+Lemma nframe_set_ota g o : nframe g (set_ota g o).
+Proof. apply nframe_same; reflexivity. Qed.
+
+(* replacing a stored node by one with the same id and the same reboot flag *)
+Lemma frame_put g k nd nd' :
+  get_node g k = Some nd -> n_id nd' = n_id nd -> n_reboot nd' = n_reboot nd -> frame g (put_node g nd').
+Proof.
+  intros G E1 E2. split; [reflexivity|]. split; [reflexivity|]. split.
+  - intros n K. apply known_get in K as [x K]. apply known_get. rewrite get_node_put.
+    destruct (n =? n_id nd'); eauto.
+  - intro I. split; [apply ids_ok_put; exact I|]. intro n. unfold reboot_flag. rewrite get_node_put.
+    pose proof (ids_ok_get g k nd I G) as K.
+    destruct (Z.eqb_spec n (n_id nd')) as [->|D]; [|reflexivity].
+    rewrite E1, K, G. exact E2.
+Qed.
+
+Lemma frame_add_sensor g sid : frame g (add_sensor g sid).
+Proof.
+  unfold add_sensor. destruct (zhas sid (g_sensors g)) eqn:H; [apply frame_refl|].
+  split; [reflexivity|]. split; [reflexivity|].
+  assert (GN : forall n, get_node (set_sensors g (g_sensors g ++ [(sid, new_node sid)])) n =
+                         match get_node g n with Some a => Some a
+                         | None => if n =? sid then Some (new_node sid) else None end).
+  { intro n. unfold get_node. cbn [g_sensors set_sensors]. rewrite zassoc_app. simpl. reflexivity. }
+  split.
+  - intros n K. apply known_get in K as [x K]. apply known_get. rewrite GN, K. eauto.
+  - intro I. split.
+    + unfold ids_ok. cbn [g_sensors set_sensors]. apply Forall_app. split; [exact I|].
+      constructor; [reflexivity|constructor].
+    + intro n. unfold reboot_flag. rewrite GN. destruct (get_node g n); [reflexivity|].
+      destruct (n =? sid); reflexivity.
+Qed.
+
+Lemma frame_route g m : frame g (fst (route g m)).
+Proof.
+  unfold route. destruct (m_type m =? vt_presentation (tab g)); [apply frame_refl|].
+  destruct (get_node g (m_node m)) as [nd|] eqn:G; [|apply frame_refl].
+  destruct ((m_type m =? vt_stream (tab g)) || negb (sleeping nd)); [apply frame_refl|].
+  cbn [fst]. eapply frame_put; [exact G|reflexivity|reflexivity].
+Qed.
+Lemma frame_route_opt g r : frame g (fst (route_opt g r)).
+Proof. destruct r; simpl; [apply frame_route|apply frame_refl]. Qed.
+
+Lemma frame_is_sensor g sid cid g1 b : is_sensor g sid cid = Ok (g1, b) -> frame g g1.
+Proof.
+  unfold is_sensor.
+  destruct (negb _ && cf_ge20 (g_cf g)); [|intro H; inversion H; apply frame_refl].
+  destruct (sassoc (s2p "I_PRESENTATION") (vt_internal_members (tab g))) as [ip|]; [|discriminate].
+  pose proof (frame_route g (mkMsg sid system_child_id (vt_internal (tab g)) 0 ip [])) as FR.
+  destruct (route g (mkMsg sid system_child_id (vt_internal (tab g)) 0 ip [])) as [g' r]. cbn [fst] in FR.
+  intro H; inversion H; subst. destruct r; [|exact FR].
+  eapply frame_trans; [exact FR|apply frame_add_job].
+Qed.
+
+(* is_sensor: the verdict, and the state when the verdict is positive *)
+Lemma is_sensor_true g sid cid g1 : is_sensor g sid cid = Ok (g1, true) ->
+  g1 = g /\ exists nd, get_node g sid = Some nd /\ forall c, cid = Some c -> zhas c (n_children nd) = true.
+Proof.
+  unfold is_sensor.
+  set (ret := match get_node g sid with
+              | Some nd => match cid with Some c => zhas c (n_children nd) | None => true end
+              | None => false end).
+  destruct ret eqn:R; simpl.
+  - intro H. assert (E : g1 = g) by (inversion H; reflexivity). subst g1. clear H. split; [reflexivity|].
+    subst ret. destruct (get_node g sid) as [nd|]; [|discriminate].
+    exists nd. split; [reflexivity|]. intros c ->. exact R.
+  - destruct (cf_ge20 (g_cf g)); [|intro H; inversion H].
+    destruct (sassoc (s2p "I_PRESENTATION") (vt_internal_members (tab g))); [|discriminate].
+    destruct (route g _) as [g' r]. intro H; inversion H.
+Qed.
+
+Lemma is_sensor_false g sid cid g1 : is_sensor g sid cid = Ok (g1, false) ->
+  match get_node g sid with
+  | Some nd => exists c, cid = Some c /\ zhas c (n_children nd) = false
+  | None => True
+  end.
+Proof.
+  unfold is_sensor. destruct (get_node g sid) as [nd|]; [|trivial].
+  destruct cid as [c|].
+  - destruct (zhas c (n_children nd)) eqn:Z; [simpl; intro H; inversion H|eauto].
+  - simpl. intro H; inversion H.
+Qed.
+
+(* ================================================================ D. handlers that do not touch the session *)
+
+Lemma update_child_value_fields nd c vt v :
+  n_id (update_child_value nd c vt v) = n_id nd /\ n_reboot (update_child_value nd c vt v) = n_reboot nd /\
+  sleeping (update_child_value nd c vt v) = sleeping nd.
+Proof.
+  unfold update_child_value. destruct (zassoc c (n_children nd)) as [ch|]; [|auto].
+  destruct (zassoc c (n_new nd)) as [dv|] eqn:D; [|auto].
+  split; [reflexivity|]. split; [reflexivity|].
+  unfold sleeping. cbn [n_new with_new with_children]. destruct (n_new nd) as [|[k a] r]; [discriminate D|].
+  simpl. destruct (c =? k); reflexivity.
+Qed.
+
+Section Handlers.
+  Variable orc : oracles.
+  Variable clock : Z.
+
+  Definition is_fw_leaf (h : hfun) : bool := match h with HFwConfigReq | HFwReq => true | _ => false end.
+
+  Lemma frame_handle_presentation_child g m g' r :
+    (m_child m =? system_child_id) = false -> handle_presentation orc g m = Ok (g', r) -> frame g g'.
+  Proof.
+    intros C. unfold handle_presentation. rewrite C.
+    destruct (is_sensor g (m_node m) None) as [[g1 b]|e] eqn:E; cbn [bind]; [|discriminate].
+    pose proof (frame_is_sensor _ _ _ _ _ E) as F1.
+    destruct b; cbn [negb]; [|intro H; inversion H; subst; exact F1].
+    destruct (get_node g1 (m_node m)) as [nd|] eqn:G; [|discriminate].
+    destruct (zhas (m_child m) (n_children nd)); [intro H; inversion H; subst; exact F1|].
+    intro H; inversion H; subst. eapply frame_trans; [exact F1|].
+    eapply frame_trans; [|apply frame_alert]. eapply frame_put; [exact G|reflexivity|reflexivity].
+  Qed.
+
+  (* node presentation: clears the reboot flag of that node, nothing else about flags / OTA *)
+  Lemma handle_presentation_node g m :
+    (m_child m =? system_child_id) = true ->
+    exists g', handle_presentation orc g m = Ok (g', Some m) /\
+      g_ota g' = g_ota g /\ g_cf g' = g_cf g /\
+      (forall n, known g n = true -> known g' n = true) /\ known g' (m_node m) = true /\
+      (ids_ok g -> ids_ok g' /\ reboot_flag g' (m_node m) = false /\
+                   forall n, n <> m_node m -> reboot_flag g' n = reboot_flag g n).
+  Proof.
+    intros C. unfold handle_presentation. rewrite C.
+    destruct (get_node_add_sensor g (m_node m)) as [nd G]. rewrite G.
+    eexists. split; [reflexivity|].
+    pose proof (frame_add_sensor g (m_node m)) as (O1 & C1 & K1 & F1).
+    set (g1 := add_sensor g (m_node m)) in *.
+    set (nd' := mkNode (n_id nd) (n_children nd) (Some (m_sub m)) (n_sk_name nd) (n_sk_ver nd)
+                       (n_batt nd) (safe_version orc (m_payload m)) (n_hb nd) (n_new nd) (n_queue nd) false).
+    destruct (alert_frame (put_node g1 nd') m) as (AS & AO & AC & _).
+    split; [rewrite AO; exact O1|]. split; [rewrite AC; exact C1|].
+    assert (GN : forall n, get_node (alert (put_node g1 nd') m) n = if n =? n_id nd' then Some nd' else get_node g1 n).
+    { intro n. unfold get_node at 1. rewrite AS. apply get_node_put. }
+    split; [|split].
+    - intros n K. apply K1 in K. apply known_get in K as [x K]. apply known_get. rewrite GN.
+      destruct (n =? n_id nd'); eauto.
+    - apply known_get. rewrite GN. destruct (m_node m =? n_id nd'); eauto.
+    - intro I. destruct (F1 I) as [I1 R1].
+      pose proof (ids_ok_get g1 _ _ I1 G) as K. change (n_id nd') with (n_id nd) in GN. rewrite K in GN.
+      split; [|split].
+      + unfold ids_ok. rewrite AS. apply ids_ok_put. exact I1.
+      + unfold reboot_flag. rewrite GN, Z.eqb_refl. reflexivity.
+      + intros n D. unfold reboot_flag at 1. rewrite GN.
+        destruct (Z.eqb_spec n (m_node m)); [contradiction|]. apply R1.
+  Qed.
+
+  Lemma frame_handle_set g m g' r : handle_set g m = Ok (g', r) -> frame g g'.
+  Proof.
+    unfold handle_set.
+    destruct (is_sensor g (m_node m) (Some (m_child m))) as [[g1 b]|e] eqn:E; cbn [bind]; [|discriminate].
+    pose proof (frame_is_sensor _ _ _ _ _ E) as F1.
+    destruct b; cbn [negb]; [|intro H; inversion H; subst; exact F1].
+    destruct (get_node g1 (m_node m)) as [nd|] eqn:G; [|discriminate].
+    destruct (update_child_value_fields nd (m_child m) (m_sub m) (m_payload m)) as (U1 & U2 & _).
+    assert (F2 : frame g (alert (put_node g1 (update_child_value nd (m_child m) (m_sub m) (m_payload m))) m)).
+    { eapply frame_trans; [exact F1|]. eapply frame_trans; [|apply frame_alert].
+      eapply frame_put; [exact G|exact U1|exact U2]. }
+    destruct (n_reboot (update_child_value nd (m_child m) (m_sub m) (m_payload m))).
+    - destruct (internal_member g "I_REBOOT"); cbn [bind]; [|discriminate].
+      destruct (copy m _); cbn [bind]; [|discriminate]. intro H; inversion H; subst. exact F2.
+    - intro H; inversion H; subst. exact F2.
+  Qed.
+
+  Lemma frame_handle_req g m g' r : handle_req g m = Ok (g', r) -> frame g g'.
+  Proof.
+    unfold handle_req.
+    destruct (is_sensor g (m_node m) (Some (m_child m))) as [[g1 b]|e] eqn:E; cbn [bind]; [|discriminate].
+    pose proof (frame_is_sensor _ _ _ _ _ E) as F1.
+    destruct b; cbn [negb]; [|intro H; inversion H; subst; exact F1].
+    destruct (get_node g1 (m_node m)) as [nd|] eqn:G; [|discriminate].
+    destruct (get_desired_value nd (m_child m) (m_sub m)); [|intro H; inversion H; subst; exact F1].
+    destruct (copy m _); cbn [bind]; [|discriminate]. intro H; inversion H; subst. exact F1.
+  Qed.
+
+  Lemma frame_handle_id_request g m g' r : handle_id_request g m = Ok (g', r) -> frame g g'.
+  Proof.
+    unfold handle_id_request. destruct (next_id g) as [nid|]; [|intro H; inversion H; apply frame_refl].
+    destruct (negb (zhas nid (g_sensors (add_sensor g nid)))); [intro H; inversion H; apply frame_add_sensor|].
+    destruct (internal_member g "I_ID_RESPONSE"); cbn [bind]; [|discriminate].
+    destruct (copy m _); cbn [bind]; [|discriminate]. intro H; inversion H; subst.
+    eapply frame_trans; [apply frame_add_sensor|apply frame_alert].
+  Qed.
+
+  Lemma frame_node_attr f g m g' r :
+    (forall nd p, n_id (f nd p) = n_id nd /\ n_reboot (f nd p) = n_reboot nd) ->
+    node_attr_handler f g m = Ok (g', r) -> frame g g'.
+  Proof.
+    intro Hf. unfold node_attr_handler.
+    destruct (is_sensor g (m_node m) None) as [[g1 b]|e] eqn:E; cbn [bind]; [|discriminate].
+    pose proof (frame_is_sensor _ _ _ _ _ E) as F1.
+    destruct b; cbn [negb]; [|intro H; inversion H; subst; exact F1].
+    destruct (get_node g1 (m_node m)) as [nd|] eqn:G; [|discriminate].
+    intro H; inversion H; subst. destruct (Hf nd (m_payload m)) as [A B].
+    eapply frame_trans; [exact F1|]. eapply frame_trans; [|apply frame_alert].
+    eapply frame_put; eassumption.
+  Qed.
+
+  Lemma frame_handle_smartsleep g k nd g2 :
+    get_node g k = Some nd -> handle_smartsleep orc g nd = Ok g2 -> frame g g2.
+  Proof.
+    intros G. unfold handle_smartsleep.
+    set (nd2 := with_queue (init_smart_sleep nd) []).
+    set (g1 := put_node g nd2).
+    set (ga := fold_left add_job_send (n_queue (init_smart_sleep nd)) g1).
+    destruct (flush_children_pre orc ga nd2 (n_children nd2)) as [sets e].
+    destruct e; [discriminate|]. intro H; inversion H; subst g2.
+    apply (frame_trans g g1); [apply (frame_put g k nd nd2 G); reflexivity|].
+    apply (frame_trans g1 ga); [apply frame_fold_add_job|]. apply frame_fold_add_job.
+  Qed.
+
+  Lemma frame_handle_heartbeat g m g' r : handle_heartbeat_response orc g m = Ok (g', r) -> frame g g'.
+  Proof.
+    unfold handle_heartbeat_response.
+    destruct (is_sensor g (m_node m) None) as [[g1 b]|e] eqn:E; cbn [bind]; [|discriminate].
+    pose proof (frame_is_sensor _ _ _ _ _ E) as F1.
+    destruct b; cbn [negb]; [|intro H; inversion H; subst; exact F1].
+    destruct (get_node g1 (m_node m)) as [nd|] eqn:G; [|discriminate].
+    destruct (handle_smartsleep orc g1 nd) as [g2|e] eqn:SS; cbn [bind]; [|discriminate].
+    pose proof (frame_handle_smartsleep _ _ _ _ G SS) as F2.
+    destruct (get_node g2 (m_node m)) as [nd2|] eqn:G2; [|discriminate].
+    intro H; inversion H; subst.
+    eapply frame_trans; [exact F1|]. eapply frame_trans; [exact F2|].
+    eapply frame_trans; [|apply frame_alert]. eapply frame_put; [exact G2|reflexivity|reflexivity].
+  Qed.
+
+  Lemma frame_handle_pre_sleep g m g' r : handle_pre_sleep orc g m = Ok (g', r) -> frame g g'.
+  Proof.
+    unfold handle_pre_sleep.
+    destruct (is_sensor g (m_node m) None) as [[g1 b]|e] eqn:E; cbn [bind]; [|discriminate].
+    pose proof (frame_is_sensor _ _ _ _ _ E) as F1.
+    destruct b; cbn [negb]; [|intro H; inversion H; subst; exact F1].
+    destruct (get_node g1 (m_node m)) as [nd|] eqn:G; [|discriminate].
+    destruct (handle_smartsleep orc g1 nd) as [g2|e] eqn:SS; cbn [bind]; [|discriminate].
+    intro H; inversion H; subst. eapply frame_trans; [exact F1|]. eapply frame_handle_smartsleep; eassumption.
+  Qed.
+
+  (* every leaf handler other than the two firmware request handlers *)
+  Lemma frame_run_leaf h g m g' r : is_fw_leaf h = false -> run_leaf orc clock h g m = Ok (g', r) -> frame g g'.
+  Proof.
+    intro NF. destruct h; try discriminate NF; unfold run_leaf; try discriminate.
+    - apply frame_handle_id_request.
+    - unfold handle_config. destruct (copy m _); cbn [bind]; [|discriminate].
+      intro H; inversion H; apply frame_refl.
+    - unfold handle_time. destruct (copy m _); cbn [bind]; [|discriminate].
+      intro H; inversion H; apply frame_refl.
+    - apply frame_node_attr. intros; split; reflexivity.
+    - apply frame_node_attr. intros; split; reflexivity.
+    - apply frame_node_attr. intros; split; reflexivity.
+    - intro H; inversion H; apply frame_refl.
+    - unfold handle_gateway_ready. intro H; inversion H; apply frame_alert.
+    - unfold handle_gateway_ready_20. destruct (internal_member g "I_DISCOVER"); cbn [bind]; [|discriminate].
+      destruct (copy m _); cbn [bind]; [|discriminate]. intro H; inversion H; apply frame_alert.
+    - apply frame_handle_heartbeat.
+    - unfold handle_discover_response.
+      destruct (is_sensor g (m_node m) None) as [[g1 b]|e] eqn:E; cbn [bind]; [|discriminate].
+      intro H; inversion H; subst. eapply frame_is_sensor. exact E.
+    - apply frame_node_attr. intros; split; reflexivity.
+    - apply frame_handle_pre_sleep.
+  Qed.
+End Handlers.
+
+(* ================================================================ E. table facts (per version, finite) *)
+
+Definition hfun_eq_dec : forall a b : hfun, {a = b} + {a <> b}.
+Proof. decide equality. Defined.
+Definition ohfun_eqb (a b : option hfun) : bool :=
+  match a, b with
+  | Some x, Some y => if hfun_eq_dec x y then true else false
+  | None, None => true
+  | _, _ => false
+  end.
+Lemma ohfun_eqb_eq a b : ohfun_eqb a b = true -> a = b.
+Proof.
+  destruct a as [x|], b as [y|]; simpl; try discriminate; [|reflexivity].
+  destruct (hfun_eq_dec x y); [congruence|discriminate].
+Qed.
+Definition oz_eqb (a b : option Z) : bool :=
+  match a, b with Some x, Some y => x =? y | None, None => true | _, _ => false end.
+Lemma oz_eqb_eq a b : oz_eqb a b = true -> a = b.
+Proof. destruct a, b; simpl; try discriminate; [intro H; apply Z.eqb_eq in H; congruence|reflexivity]. Qed.
+
+(* hand-written reading of the serial API: stream sub-type 0 = firmware config request,
+   2 = firmware request; 1 / 3 = the responses; internal 13 = reboot, 19 = presentation request *)
+Definition stream_spec (s : Z) : option hfun :=
+  if s =? 0 then Some HFwConfigReq else if s =? 2 then Some HFwReq else None.
+
+Definition c10_facts (t : vtab) (ge : bool) : bool :=
+  (vt_stream t =? 4) && (vt_internal t =? 3) && (vt_presentation t =? 0) && (vt_set t =? 1) &&
+  oz_eqb (sassoc (s2p "I_REBOOT") (vt_internal_members t)) (Some 13) &&
+  (negb ge || oz_eqb (sassoc (s2p "I_PRESENTATION") (vt_internal_members t)) (Some 19)) &&
+  oz_eqb (sassoc (s2p "ST_FIRMWARE_CONFIG_RESPONSE") (vt_stream_members t)) (Some 1) &&
+  oz_eqb (sassoc (s2p "ST_FIRMWARE_RESPONSE") (vt_stream_members t)) (Some 3) &&
+  match zassoc 4 (vt_sub_names t) with
+  | Some names =>
+      forallb (fun kn => ohfun_eqb (registry_fun t (snd kn)) (stream_spec (fst kn))) names &&
+      zhas 0 names && zhas 2 names
+  | None => false
+  end &&
+  match zassoc 3 (vt_sub_names t) with
+  | Some names =>
+      forallb (fun kn => match registry_fun t (snd kn) with Some h => negb (is_fw_leaf h) | None => true end) names
+  | None => true
+  end.
+
+Lemma c10_facts_all v : c10_facts (tab_of v) (ge20 v) = true.
+Proof. destruct v; vm_compute; reflexivity. Qed.
+
+Record tabfacts (t : vtab) (ge : bool) : Prop := {
+  tf_stream : vt_stream t = 4;
+  tf_internal : vt_internal t = 3;
+  tf_presentation : vt_presentation t = 0;
+  tf_set : vt_set t = 1;
+  tf_reboot : sassoc (s2p "I_REBOOT") (vt_internal_members t) = Some 13;
+  tf_ipres : ge = true -> sassoc (s2p "I_PRESENTATION") (vt_internal_members t) = Some 19;
+  tf_cfgresp : sassoc (s2p "ST_FIRMWARE_CONFIG_RESPONSE") (vt_stream_members t) = Some 1;
+  tf_fwresp : sassoc (s2p "ST_FIRMWARE_RESPONSE") (vt_stream_members t) = Some 3;
+  tf_stream_handlers : forall s, sub_handler t 4 s = stream_spec s;
+  tf_internal_handlers : forall s h, sub_handler t 3 s = Some h -> is_fw_leaf h = false }.
+
+Lemma c10_facts_sound t ge : c10_facts t ge = true -> tabfacts t ge.
+Proof.
+  unfold c10_facts. intro F.
+  repeat match type of F with _ && _ = true => apply andb_true_iff in F as [F ?] end.
+  constructor.
+  - apply Z.eqb_eq; assumption.
+  - apply Z.eqb_eq; assumption.
+  - apply Z.eqb_eq; assumption.
+  - apply Z.eqb_eq; assumption.
+  - apply oz_eqb_eq; assumption.
+  - intros ->. apply oz_eqb_eq. assumption.
+  - apply oz_eqb_eq; assumption.
+  - apply oz_eqb_eq; assumption.
+  - intro s. unfold sub_handler.
+    match goal with H : match zassoc 4 _ with _ => _ end = true |- _ => rename H into S4 end.
+    destruct (zassoc 4 (vt_sub_names t)) as [names|]; [|discriminate].
+    apply andb_true_iff in S4 as [S4 Z2]. apply andb_true_iff in S4 as [S4 Z0].
+    rewrite forallb_forall in S4.
+    destruct (zassoc s names) as [name|] eqn:E.
+    + apply zassoc_In in E. apply S4 in E. cbn [fst snd] in E. apply ohfun_eqb_eq. exact E.
+    + unfold stream_spec. destruct (Z.eqb_spec s 0) as [->|D0].
+      * unfold zhas in Z0. rewrite E in Z0. discriminate.
+      * destruct (Z.eqb_spec s 2) as [->|D2]; [|reflexivity].
+        unfold zhas in Z2. rewrite E in Z2. discriminate.
+  - intros s h. unfold sub_handler.
+    match goal with H : match zassoc 3 _ with _ => _ end = true |- _ => rename H into S3 end.
+    destruct (zassoc 3 (vt_sub_names t)) as [names|]; [|discriminate].
+    rewrite forallb_forall in S3.
+    destruct (zassoc s names) as [name|] eqn:E; [|discriminate].
+    apply zassoc_In in E. apply S3 in E. cbn [snd] in E. intro R. rewrite R in E.
+    apply negb_true_iff. exact E.
+Qed.
+
+Lemma tabfacts_of_cfg g : cfg_ok (g_cf g) -> tabfacts (tab g) (cf_ge20 (g_cf g)).
+Proof. intros [v [T G]]. unfold tab. rewrite T, G. apply c10_facts_sound, c10_facts_all. Qed.
+
+(* ================================================================ F. the two firmware request handlers *)
+
+Definition stream_reply (m : msg) (sub : Z) (p : pstr) : msg :=
+  mkMsg (m_node m) (m_child m) (m_type m) (m_ack m) sub p.
+
+(* abstract input carried by a stream message of sub-type 0 / 2 *)
+Definition cfg_input (m : msg) : sin :=
+  match fw_hex_to_int (m_payload m) 5 with Ok _ => CfgReq | Raise _ => Malformed end.
+Definition blk_input (m : msg) : sin :=
+  match fw_hex_to_int (m_payload m) 3 with Ok [t; v; b] => BlkReq (t, v) b | _ => Malformed end.
+Definition stream_input (m : msg) : option sin :=
+  if m_sub m =? 0 then Some (cfg_input m) else if m_sub m =? 2 then Some (blk_input m) else None.
+
+(* the message an offer becomes, given the firmware dictionary: config response (sub-type 1)
+   for the key of the offer, block response (sub-type 3) for the requested key and block;
+   nothing when no image is stored for that key; struct.error of the packing propagates *)
+Definition offer_reply (fws : list ((Z * Z) * fware)) (m : msg) (out : sout) : res (option msg) :=
+  match out with
+  | NoOut => Ok None
+  | CfgResp (t, v) =>
+      match fw_lookup t v fws with
+      | Some f => do p <- fw_config_payload t v f; Ok (Some (stream_reply m 1 p))
+      | None => Ok None
+      end
+  | BlkResp (t, v) b =>
+      match fw_lookup t v fws with
+      | Some f => do p <- fw_response_payload t v b f; Ok (Some (stream_reply m 3 p))
+      | None => Ok None
+      end
+  end.
+
+(* everything but the OTA state (and, where stated, log / dirty) is the same *)
+Definition same_core (g g' : gw) : Prop :=
+  g_cf g' = g_cf g /\ g_sensors g' = g_sensors g /\ g_metric g' = g_metric g /\ g_jobs g' = g_jobs g.
+
+(* the result of a firmware leaf handler in terms of the automaton *)
+Definition leaf_sim (g : gw) (m : msg) (i : sin) (r : res (gw * option msg)) : Prop :=
+  let so := sstep (abs (g_ota g) (m_node m)) i in
+  exists g',
+    r = (do rm <- offer_reply (o_fw (g_ota g)) m (snd so); Ok (g', rm)) /\
+    sess_inv (g_ota g') /\ o_fw (g_ota g') = o_fw (g_ota g) /\
+    abs (g_ota g') (m_node m) = fst so /\
+    (forall n, n <> m_node m -> abs (g_ota g') n = abs (g_ota g) n) /\
+    same_core g g' /\ g_log g' = g_log g /\ g_dirty g' = g_dirty g.
+
+Lemma override_sub m sub : override m (mkRepl None None None None (Some sub) None) =
+  mkMsg (m_node m) (m_child m) (m_type m) (m_ack m) sub (m_payload m).
+Proof. reflexivity. Qed.
+
+Lemma respond_fw_config_sim g m : tabfacts (tab g) (cf_ge20 (g_cf g)) -> sess_inv (g_ota g) ->
+  wire_ok (m_payload m) = true -> leaf_sim g m (cfg_input m) (respond_fw_config g m).
+Proof.
+  intros TF SI W. unfold leaf_sim, respond_fw_config, cfg_input.
+  destruct (fw_hex_to_int (m_payload m) 5) as [ws|e].
+  2:{ exists g. cbn [sstep fst snd offer_reply bind]. split; [reflexivity|].
+      split; [exact SI|]. repeat split; reflexivity. }
+  destruct (ota_get_fw_cfg (g_ota g) (m_node m) SI) as (SI' & FW & AB & OT & OUT).
+  destruct (ota_get_fw (g_ota g) (m_node m) true None) as [o' r]. cbn [fst snd] in *.
+  exists (set_ota g o'). cbn [g_ota set_ota g_log g_dirty].
+  split; [|split; [exact SI'|split; [exact FW|split; [exact AB|split; [exact OT|repeat split; reflexivity]]]]].
+  subst r. destruct (abs (g_ota g) (m_node m)) as [|[t v]|[t v]|[t v]];
+    cbn [sstep fst snd fw_out offer_reply bind]; try reflexivity.
+  all: destruct (fw_lookup t v (o_fw (g_ota g))) as [f|]; cbn [option_map bind]; [|reflexivity].
+  all: unfold stream_member; rewrite (tf_cfgresp _ _ TF); cbn [of_option bind].
+  all: rewrite (copy_spec _ _ W); cbn [bind]; rewrite override_sub.
+  all: destruct (fw_config_payload t v f); reflexivity.
+Qed.
+
+Lemma respond_fw_sim g m : tabfacts (tab g) (cf_ge20 (g_cf g)) -> sess_inv (g_ota g) ->
+  wire_ok (m_payload m) = true -> leaf_sim g m (blk_input m) (respond_fw g m).
+Proof.
+  intros TF SI W. unfold leaf_sim, respond_fw, blk_input.
+  assert (NOP : leaf_sim g m Malformed (Ok (g, None))).
+  { exists g. cbn [sstep fst snd offer_reply bind]. split; [reflexivity|].
+    split; [exact SI|]. repeat split; reflexivity. }
+  unfold leaf_sim in NOP.
+  destruct (fw_hex_to_int (m_payload m) 3) as [ws|e]; [|exact NOP].
+  destruct ws as [|rt [|rv [|rb [|x y]]]]; try exact NOP. clear NOP.
+  destruct (ota_get_fw_blk (g_ota g) (m_node m) rt rv rb SI) as (SI' & FW & AB & OT & OUT).
+  destruct (ota_get_fw (g_ota g) (m_node m) false (Some (rt, rv))) as [o' r]. cbn [fst snd] in *.
+  exists (set_ota g o'). cbn [g_ota set_ota g_log g_dirty].
+  split; [|split; [exact SI'|split; [exact FW|split; [exact AB|split; [exact OT|repeat split; reflexivity]]]]].
+  subst r. destruct (abs (g_ota g) (m_node m)) as [|[t v]|[t v]|[t v]];
+    cbn [sstep fst snd fw_out offer_reply bind]; try reflexivity.
+  all: destruct (fw_lookup rt rv (o_fw (g_ota g))) as [f|]; cbn [option_map bind]; [|reflexivity].
+  all: unfold stream_member; rewrite (tf_fwresp _ _ TF); cbn [of_option bind].
+  all: rewrite (copy_spec _ _ W); cbn [bind]; rewrite override_sub.
+  all: destruct (fw_response_payload rt rv rb f); reflexivity.
+Qed.
+
+(* ================================================================ G. handle_stream and the dispatcher *)
+Section Dispatch.
+  Variable orc : oracles.
+  Variable clock : Z.
+
+  Lemma is_sensor_known g n : known g n = true -> is_sensor g n None = Ok (g, true).
+  Proof.
+    intro K. apply known_get in K as [nd G]. unfold is_sensor. rewrite G. reflexivity.
+  Qed.
+
+  (* stream message from a node the gateway does not know: nothing but the >= 2.0
+     presentation request; state otherwise untouched *)
+  Lemma handle_stream_unknown g m : tabfacts (tab g) (cf_ge20 (g_cf g)) -> known g (m_node m) = false ->
+    handle_stream orc clock g m =
+      Ok (if cf_ge20 (g_cf g) then add_job_send g (encode (mkMsg (m_node m) 255 3 0 19 [])) else g, None).
+  Proof.
+    intros TF K. apply known_false in K. unfold handle_stream, is_sensor. rewrite K. cbn [negb andb].
+    destruct (cf_ge20 (g_cf g)) eqn:GE; [|reflexivity].
+    rewrite (tf_ipres _ _ TF eq_refl). unfold route.
+    cbn [m_type m_node]. rewrite (tf_internal _ _ TF), (tf_presentation _ _ TF), K. reflexivity.
+  Qed.
+
+  Lemma handle_stream_request g m i :
+    tabfacts (tab g) (cf_ge20 (g_cf g)) -> sess_inv (g_ota g) -> wire_ok (m_payload m) = true ->
+    m_type m = 4 -> known g (m_node m) = true -> stream_input m = Some i ->
+    let so := sstep (abs (g_ota g) (m_node m)) i in
+    exists g',
+      handle_stream orc clock g m = (do rm <- offer_reply (o_fw (g_ota g)) m (snd so); Ok (g', rm)) /\
+      sess_inv (g_ota g') /\ o_fw (g_ota g') = o_fw (g_ota g) /\
+      abs (g_ota g') (m_node m) = fst so /\
+      (forall n, n <> m_node m -> abs (g_ota g') n = abs (g_ota g) n) /\
+      same_core g g' /\ g_log g' = g_log (alert g m) /\ g_dirty g' = g_dirty (alert g m).
+  Proof.
+    intros TF SI W T K IN so. unfold handle_stream. rewrite (is_sensor_known g _ K). cbn [bind negb].
+    rewrite T, (tf_stream_handlers _ _ TF). unfold stream_input in IN. unfold stream_spec.
+    assert (L : exists h, (if m_sub m =? 0 then Some HFwConfigReq else if m_sub m =? 2 then Some HFwReq else None) = Some h /\
+                          leaf_sim g m i (run_leaf orc clock h g m)).
+    { destruct (m_sub m =? 0).
+      - inversion IN; subst i. eexists; split; [reflexivity|]. apply respond_fw_config_sim; assumption.
+      - destruct (m_sub m =? 2); [|discriminate]. inversion IN; subst i.
+        eexists; split; [reflexivity|]. apply respond_fw_sim; assumption. }
+    destruct L as (h & -> & g1 & E & SI1 & FW1 & AB1 & OT1 & (C1 & S1 & M1 & J1) & L1 & D1).
+    rewrite E. fold so. exists (alert g1 m).
+    destruct (alert_frame g1 m) as (AS & AO & AC & AJ & AM).
+    split; [destruct (offer_reply (o_fw (g_ota g)) m (snd so)); reflexivity|].
+    rewrite AO. split; [exact SI1|]. split; [exact FW1|]. split; [exact AB1|]. split; [exact OT1|].
+    split; [repeat split; congruence|].
+    unfold alert. rewrite C1, S1.
+    destruct (cf_callback (g_cf g)), (cf_persist (g_cf g)); cbn [g_log g_dirty emit set_dirty];
+      rewrite ?L1, ?D1; split; reflexivity.
+  Qed.
+End Dispatch.
+
+(* ================================================================ H. logic *)
+Section Logic.
+  Variable orc : oracles.
+  Variable clock : Z.
+
+  Definition post_route (r : res (gw * option msg)) : res (gw * option pstr) :=
+    do x <- r;
+    let '(g1, reply) := x in
+    let '(g2, routed) := route_opt g1 reply in
+    Ok (g2, option_map encode routed).
+
+  (* an accepted line is dispatched on its type (0..4) to the five top-level handlers *)
+  Lemma logic_dispatch g l m : cfg_ok (g_cf g) -> decode l = Some m -> gvalidate orc g m = true ->
+    exists h,
+      ((m_type m = 0 /\ h = HPresentation) \/ (m_type m = 1 /\ h = HSet) \/ (m_type m = 2 /\ h = HReq) \/
+       (m_type m = 3 /\ h = HInternal) \/ (m_type m = 4 /\ h = HStream)) /\
+      logic orc clock g l = post_route (run_handler orc clock h g m).
+  Proof.
+    intros C D V. pose proof (facts_of_cfg g C) as F.
+    pose proof (validated_type_range orc g m C V) as B.
+    unfold logic. rewrite D, V. cbn [negb].
+    destruct (type_handler_cases g (m_type m) F B) as [[T E]|[[T E]|[[T E]|[[T E]|[T E]]]]];
+      rewrite E; eexists; (split; [|reflexivity]); tauto.
+  Qed.
+
+  Lemma route_stream g m : tabfacts (tab g) (cf_ge20 (g_cf g)) -> m_type m = 4 -> route g m = (g, Some m).
+  Proof.
+    intros TF T. unfold route. rewrite T, (tf_presentation _ _ TF), (tf_stream _ _ TF).
+    cbn. destruct (get_node g (m_node m)); reflexivity.
+  Qed.
+
+  Lemma offer_reply_shape fws m out x : offer_reply fws m out = Ok (Some x) ->
+    m_type x = m_type m /\ m_node x = m_node m /\ m_child x = m_child m /\ m_ack x = m_ack m /\
+    ((exists k, out = CfgResp k /\ m_sub x = 1) \/ (exists k b, out = BlkResp k b /\ m_sub x = 3)).
+  Proof.
+    destruct out as [|[t v]|[t v] b]; cbn [offer_reply]; [discriminate| |].
+    - destruct (fw_lookup t v fws) as [f|]; [|discriminate].
+      destruct (fw_config_payload t v f); cbn [bind]; [|discriminate].
+      intro H; inversion H; subst x. cbn. repeat split; try reflexivity. left. eauto.
+    - destruct (fw_lookup t v fws) as [f|]; [|discriminate].
+      destruct (fw_response_payload t v b f); cbn [bind]; [|discriminate].
+      intro H; inversion H; subst x. cbn. repeat split; try reflexivity. right. eauto.
+  Qed.
+
+  (* ---- accepted stream message, known node, firmware (config) request ---- *)
+  Theorem logic_stream_request g l m i :
+    cfg_ok (g_cf g) -> sess_inv (g_ota g) ->
+    decode l = Some m -> gvalidate orc g m = true -> m_type m = 4 -> known g (m_node m) = true ->
+    stream_input m = Some i ->
+    let so := sstep (abs (g_ota g) (m_node m)) i in
+    exists g',
+      logic orc clock g l =
+        (do rm <- offer_reply (o_fw (g_ota g)) m (snd so); Ok (g', option_map encode rm)) /\
+      sess_inv (g_ota g') /\ o_fw (g_ota g') = o_fw (g_ota g) /\
+      abs (g_ota g') (m_node m) = fst so /\
+      (forall n, n <> m_node m -> abs (g_ota g') n = abs (g_ota g) n) /\
+      same_core g g' /\ g_log g' = g_log (alert g m) /\ g_dirty g' = g_dirty (alert g m).
+  Proof.
+    intros C SI D V T K IN so.
+    pose proof (tabfacts_of_cfg g C) as TF.
+    pose proof (decoded_payload_wire_ok _ _ D) as W.
+    destruct (logic_dispatch g l m C D V) as (h & HC & EL).
+    assert (h = HStream) by (destruct HC as [[A B]|[[A B]|[[A B]|[[A B]|[A B]]]]]; congruence). subst h.
+    destruct (handle_stream_request orc clock g m i TF SI W T K IN) as (g' & E & REST).
+    exists g'. split; [|exact REST].
+    rewrite EL. unfold run_handler, post_route. rewrite E. fold so.
+    destruct (offer_reply (o_fw (g_ota g)) m (snd so)) as [[x|]|e] eqn:OR; cbn [bind]; try reflexivity.
+    destruct (offer_reply_shape _ _ _ _ OR) as (TX & _).
+    unfold route_opt. rewrite route_stream; [reflexivity| |congruence].
+    destruct REST as (_ & _ & _ & _ & (C1 & _) & _). unfold tab. rewrite C1. exact TF.
+  Qed.
+
+  (* ---- accepted stream message, known node, any other sub-type: nothing at all ---- *)
+  Theorem logic_stream_other g l m :
+    cfg_ok (g_cf g) -> decode l = Some m -> gvalidate orc g m = true -> m_type m = 4 ->
+    known g (m_node m) = true -> stream_input m = None ->
+    logic orc clock g l = Ok (g, None).
+  Proof.
+    intros C D V T K IN. pose proof (tabfacts_of_cfg g C) as TF.
+    destruct (logic_dispatch g l m C D V) as (h & HC & EL).
+    assert (h = HStream) by (destruct HC as [[A B]|[[A B]|[[A B]|[[A B]|[A B]]]]]; congruence). subst h.
+    rewrite EL. unfold run_handler, post_route, handle_stream. rewrite (is_sensor_known g _ K). cbn [bind negb].
+    rewrite T, (tf_stream_handlers _ _ TF). unfold stream_input in IN. unfold stream_spec.
+    destruct (m_sub m =? 0); [discriminate|]. destruct (m_sub m =? 2); [discriminate|]. reflexivity.
+  Qed.
+
+  (* ---- accepted stream message from an unknown node ---- *)
+  Theorem logic_stream_unknown g l m :
+    cfg_ok (g_cf g) -> decode l = Some m -> gvalidate orc g m = true -> m_type m = 4 ->
+    known g (m_node m) = false ->
+    logic orc clock g l =
+      Ok (if cf_ge20 (g_cf g) then add_job_send g (encode (mkMsg (m_node m) 255 3 0 19 [])) else g, None).
+  Proof.
+    intros C D V T K. pose proof (tabfacts_of_cfg g C) as TF.
+    destruct (logic_dispatch g l m C D V) as (h & HC & EL).
+    assert (h = HStream) by (destruct HC as [[A B]|[[A B]|[[A B]|[[A B]|[A B]]]]]; congruence). subst h.
+    rewrite EL. unfold run_handler, post_route. rewrite (handle_stream_unknown orc clock g m TF K).
+    reflexivity.
+  Qed.
+
+  (* ---- malformed request from a known node: exactly the callback alert ---- *)
+  Theorem logic_malformed g l m :
+    cfg_ok (g_cf g) -> decode l = Some m -> gvalidate orc g m = true -> m_type m = 4 ->
+    known g (m_node m) = true ->
+    ((m_sub m = 0 /\ exists e, fw_hex_to_int (m_payload m) 5 = Raise e) \/
+     (m_sub m = 2 /\ exists e, fw_hex_to_int (m_payload m) 3 = Raise e)) ->
+    logic orc clock g l = Ok (alert g m, None).
+  Proof.
+    intros C D V T K MF. pose proof (tabfacts_of_cfg g C) as TF.
+    destruct (logic_dispatch g l m C D V) as (h & HC & EL).
+    assert (h = HStream) by (destruct HC as [[A B]|[[A B]|[[A B]|[[A B]|[A B]]]]]; congruence). subst h.
+    rewrite EL. unfold run_handler, post_route, handle_stream. rewrite (is_sensor_known g _ K). cbn [bind negb].
+    rewrite T, (tf_stream_handlers _ _ TF). unfold stream_spec.
+    destruct MF as [[S [e E]]|[S [e E]]]; rewrite S; cbn [Z.eqb]; unfold run_leaf.
+    - unfold respond_fw_config. rewrite E. reflexivity.
+    - unfold respond_fw. rewrite E. reflexivity.
+  Qed.
+
+  (* ---- node presentation: clears the flag, OTA untouched, no reply line (presentations are not routed) ---- *)
+  Theorem logic_node_presentation g l m :
+    cfg_ok (g_cf g) -> decode l = Some m -> gvalidate orc g m = true -> m_type m = 0 -> m_child m = 255 ->
+    exists g', logic orc clock g l = Ok (g', None) /\
+      g_ota g' = g_ota g /\ g_cf g' = g_cf g /\
+      (forall n, known g n = true -> known g' n = true) /\ known g' (m_node m) = true /\
+      (ids_ok g -> ids_ok g' /\ reboot_flag g' (m_node m) = false /\
+                   forall n, n <> m_node m -> reboot_flag g' n = reboot_flag g n).
+  Proof.
+    intros C D V T CH. pose proof (tabfacts_of_cfg g C) as TF.
+    destruct (logic_dispatch g l m C D V) as (h & HC & EL).
+    assert (h = HPresentation) by (destruct HC as [[A B]|[[A B]|[[A B]|[[A B]|[A B]]]]]; congruence). subst h.
+    assert (CB : (m_child m =? system_child_id) = true) by (rewrite CH; reflexivity).
+    destruct (handle_presentation_node orc g m CB) as (g' & E & REST).
+    exists g'. split; [|exact REST]. rewrite EL. unfold run_handler, post_route. rewrite E. cbn [bind].
+    unfold route_opt, route. destruct REST as (_ & C1 & _). unfold tab. rewrite C1.
+    fold (tab g). rewrite T, (tf_presentation _ _ TF). reflexivity.
+  Qed.
+
+  (* ---- every other accepted line: OTA state, node ids and reboot flags untouched ---- *)
+  Theorem logic_other_frame g l m g' r :
+    cfg_ok (g_cf g) -> decode l = Some m -> gvalidate orc g m = true ->
+    m_type m <> 4 -> ~ (m_type m = 0 /\ m_child m = 255) ->
+    logic orc clock g l = Ok (g', r) -> frame g g'.
+  Proof.
+    intros C D V NS NP. pose proof (tabfacts_of_cfg g C) as TF.
+    destruct (logic_dispatch g l m C D V) as (h & HC & EL). rewrite EL. unfold post_route.
+    destruct (run_handler orc clock h g m) as [[g1 reply]|e] eqn:RH; cbn [bind]; [|discriminate].
+    pose proof (frame_route_opt g1 reply) as FR.
+    destruct (route_opt g1 reply) as [g2 routed]. cbn [fst] in FR.
+    intro H; inversion H; subst g' r. eapply frame_trans; [|exact FR]. clear FR H.
+    destruct HC as [[A B]|[[A B]|[[A B]|[[A B]|[A B]]]]]; subst h; unfold run_handler in RH.
+    - eapply frame_handle_presentation_child; [|exact RH].
+      destruct (Z.eqb_spec (m_child m) system_child_id) as [E|E]; [|reflexivity].
+      exfalso. apply NP. split; [exact A|exact E].
+    - eapply frame_handle_set; exact RH.
+    - eapply frame_handle_req; exact RH.
+    - unfold handle_internal in RH. rewrite A in RH.
+      destruct (sub_handler (tab g) 3 (m_sub m)) as [h|] eqn:SH; [|inversion RH; apply frame_refl].
+      eapply frame_run_leaf; [|exact RH]. eapply tf_internal_handlers; eassumption.
+    - contradiction.
+  Qed.
+End Logic.
+
+(* ================================================================ I. the update call *)
+
+(* the key an update call schedules, if it schedules at all: int(type), int(version) succeed
+   and are 16-bit words; an image was given (non-empty) or one is already stored for the key *)
+Definition update_key (g : gw) (fwt fwv : vtarg) (bin : option (list N)) : option fwkey :=
+  match vt_int fwt, vt_int fwv with
+  | Some t, Some v =>
+      if word_ok t && word_ok v then
+        match bin with
+        | Some [] => None            (* Tasks.update_fw: load failed / empty -> return *)
+        | Some _ => Some (t, v)
+        | None => match fw_lookup t v (o_fw (g_ota g)) with Some _ => Some (t, v) | None => None end
+        end
+      else None
+  | _, _ => None
+  end.
+
+Lemma fw_lookup_store_same t v f l : fw_lookup t v (fw_store t v f l) = Some f.
+Proof.
+  induction l as [|[[t' v'] f'] l IH]; simpl; [rewrite !Z.eqb_refl; reflexivity|].
+  destruct (Z.eqb t t' && Z.eqb v v') eqn:E; simpl; [rewrite !Z.eqb_refl; reflexivity|].
+  rewrite E. exact IH.
+Qed.
+
+Lemma fw_lookup_store_other t v f l t' v' : (t', v') <> (t, v) ->
+  fw_lookup t' v' (fw_store t v f l) = fw_lookup t' v' l.
+Proof.
+  intro D. assert (X : Z.eqb t' t && Z.eqb v' v = false).
+  { apply andb_false_iff. destruct (Z.eqb_spec t' t); [|auto]. destruct (Z.eqb_spec v' v); [|auto]. congruence. }
+  induction l as [|[[t2 v2] f2] l IH]; simpl; [rewrite X; reflexivity|].
+  destruct (Z.eqb t t2 && Z.eqb v v2) eqn:E; simpl.
+  - apply andb_true_iff in E as [E1 E2]. apply Z.eqb_eq in E1, E2. subst t2 v2. rewrite X. reflexivity.
+  - destruct (Z.eqb t' t2 && Z.eqb v' v2); [reflexivity|exact IH].
+Qed.
+
+Definition same_sessions (o o' : ota) : Prop :=
+  o_requested o' = o_requested o /\ o_unstarted o' = o_unstarted o /\ o_started o' = o_started o.
+
+Lemma same_sessions_abs o o' n : same_sessions o o' -> abs o' n = abs o n.
+Proof. intros (A & B & C). unfold abs. rewrite A, B, C. reflexivity. Qed.
+Lemma same_sessions_inv o o' : same_sessions o o' -> sess_inv o -> sess_inv o'.
+Proof. intros (A & B & C). unfold sess_inv, excl. rewrite A, B, C. tauto. Qed.
+
+(* one scheduled id *)
+Lemma update_one_spec t v g nid : sess_inv (g_ota g) -> ids_ok g ->
+  let g' := update_one t v g nid in
+  sess_inv (g_ota g') /\ ids_ok g' /\ o_fw (g_ota g') = o_fw (g_ota g) /\ g_cf g' = g_cf g /\
+  g_log g' = g_log g /\ g_jobs g' = g_jobs g /\ g_dirty g' = g_dirty g /\ g_metric g' = g_metric g /\
+  (forall n, known g' n = known g n) /\
+  (forall n, abs (g_ota g') n = if (n =? nid) && known g n then Requested (t, v) else abs (g_ota g) n) /\
+  (forall n, reboot_flag g' n = if (n =? nid) && known g n then true else reboot_flag g n).
+Proof.
+  intros SI I g'. subst g'. unfold update_one.
+  destruct (get_node g nid) as [nd|] eqn:G.
+  2:{ apply known_false in G. split; [exact SI|]. split; [exact I|]. repeat (split; [reflexivity|]). split.
+      - intro n. destruct (Z.eqb_spec n nid) as [->|]; [rewrite G|]; reflexivity.
+      - intro n. destruct (Z.eqb_spec n nid) as [->|]; [rewrite G|]; reflexivity. }
+  assert (K : known g nid = true) by (apply known_get; eauto).
+  pose proof (ids_ok_get g nid nd I G) as ID.
+  destruct SI as (N1 & N2 & N3 & E).
+  set (o' := mkOta (o_fw (g_ota g)) (zset nid (t, v) (o_requested (g_ota g)))
+                   (zdel nid (o_unstarted (g_ota g))) (zdel nid (o_started (g_ota g)))).
+  change (g_ota (put_node (set_ota g o') (with_reboot nd true))) with o'.
+  assert (GN : forall n, get_node (put_node (set_ota g o') (with_reboot nd true)) n =
+                         if n =? nid then Some (with_reboot nd true) else get_node g n).
+  { intro n. rewrite get_node_put. cbn [n_id with_reboot]. rewrite ID. reflexivity. }
+  split; [|split; [apply ids_ok_put; exact I|repeat (split; [reflexivity|]); split; [|split]]].
+  - split; [apply nodup_zset; exact N1|]. split; [apply nodup_zdel; exact N2|]. split; [apply nodup_zdel; exact N3|].
+    intro n. cbn [o' o_requested o_unstarted o_started].
+    destruct (Z.eq_dec n nid) as [->|D].
+    + rewrite !zassoc_zdel_same by assumption. auto.
+    + rewrite zassoc_zset_other by congruence. rewrite !zassoc_zdel_other by congruence. apply E.
+  - intro n. unfold known, zhas. fold (get_node (put_node (set_ota g o') (with_reboot nd true)) n).
+    fold (get_node g n). rewrite GN. destruct (Z.eqb_spec n nid) as [->|]; [rewrite G|]; reflexivity.
+  - intro n. destruct (Z.eqb_spec n nid) as [->|D]; cbn [andb].
+    + rewrite K. unfold abs. cbn [o' o_requested]. rewrite zassoc_zset_same. reflexivity.
+    + apply abs_ext; cbn [o' o_requested o_unstarted o_started];
+        [apply zassoc_zset_other|apply zassoc_zdel_other|apply zassoc_zdel_other]; congruence.
+  - intro n. unfold reboot_flag at 1. rewrite GN.
+    destruct (Z.eqb_spec n nid) as [->|D]; cbn [andb]; [rewrite K; reflexivity|reflexivity].
+Qed.
+
+Lemma update_fold_spec t v nids : forall g, sess_inv (g_ota g) -> ids_ok g ->
+  let g' := fold_left (update_one t v) nids g in
+  sess_inv (g_ota g') /\ ids_ok g' /\ o_fw (g_ota g') = o_fw (g_ota g) /\ g_cf g' = g_cf g /\
+  g_log g' = g_log g /\ g_jobs g' = g_jobs g /\ g_dirty g' = g_dirty g /\ g_metric g' = g_metric g /\
+  (forall n, known g' n = known g n) /\
+  (forall n, abs (g_ota g') n = if zmem n nids && known g n then Requested (t, v) else abs (g_ota g) n) /\
+  (forall n, reboot_flag g' n = if zmem n nids && known g n then true else reboot_flag g n).
+Proof.
+  induction nids as [|nid r IH]; intros g SI I; cbn [fold_left zmem].
+  - split; [exact SI|]. split; [exact I|]. repeat (split; [reflexivity|]). reflexivity.
+  - destruct (update_one_spec t v g nid SI I) as (S1 & I1 & F1 & C1 & L1 & J1 & D1 & M1 & K1 & A1 & R1).
+    destruct (IH _ S1 I1) as (S2 & I2 & F2 & C2 & L2 & J2 & D2 & M2 & K2 & A2 & R2).
+    split; [exact S2|]. split; [exact I2|]. split; [congruence|]. split; [congruence|]. split; [congruence|].
+    split; [congruence|]. split; [congruence|]. split; [congruence|].
+    split; [intro n; rewrite K2; apply K1|]. split.
+    + intro n. rewrite A2, A1, K1. destruct (n =? nid), (zmem n r), (known g n); reflexivity.
+    + intro n. rewrite R2, R1, K1. destruct (n =? nid), (zmem n r), (known g n); reflexivity.
+Qed.
+
+(* the update call: always returns; schedules exactly the KNOWN nodes named, iff it has a key *)
+Theorem update_fw_spec g nids fwt fwv bin : sess_inv (g_ota g) -> ids_ok g ->
+  exists g', update_fw g nids fwt fwv bin = Ok g' /\
+    sess_inv (g_ota g') /\ ids_ok g' /\ g_cf g' = g_cf g /\
+    g_log g' = g_log g /\ g_jobs g' = g_jobs g /\ g_dirty g' = g_dirty g /\ g_metric g' = g_metric g /\
+    (forall n, known g' n = known g n) /\
+    match update_key g fwt fwv bin with
+    | None =>
+        (* nothing is scheduled: all stores, the firmware dictionary and the sensors are as before *)
+        same_sessions (g_ota g) (g_ota g') /\ o_fw (g_ota g') = o_fw (g_ota g) /\ g_sensors g' = g_sensors g
+    | Some (t, v) =>
+        0 <= t <= 65535 /\ 0 <= v <= 65535 /\ vt_int fwt = Some t /\ vt_int fwv = Some v /\
+        (exists f, fw_lookup t v (o_fw (g_ota g')) = Some f) /\
+        o_fw (g_ota g') = match bin with
+                          | Some b => fw_store t v (prepare_fw b) (o_fw (g_ota g))
+                          | None => o_fw (g_ota g)
+                          end /\
+        (forall n, abs (g_ota g') n =
+                   if zmem n nids && known g n then Requested (t, v) else abs (g_ota g) n) /\
+        (forall n, reboot_flag g' n = if zmem n nids && known g n then true else reboot_flag g n)
+    end.
+Proof.
+  intros SI I.
+  assert (SAME : exists g', Ok g = Ok g' /\ sess_inv (g_ota g') /\ ids_ok g' /\ g_cf g' = g_cf g /\
+            g_log g' = g_log g /\ g_jobs g' = g_jobs g /\ g_dirty g' = g_dirty g /\ g_metric g' = g_metric g /\
+            (forall n, known g' n = known g n) /\
+            same_sessions (g_ota g) (g_ota g') /\ o_fw (g_ota g') = o_fw (g_ota g) /\ g_sensors g' = g_sensors g).
+  { exists g. split; [reflexivity|]. split; [exact SI|]. split; [exact I|]. repeat (split; [reflexivity|]).
+    split; [repeat split|]. split; reflexivity. }
+  unfold update_fw, update_key.
+  destruct (vt_int fwt) as [t|].
+  2:{ destruct bin as [[|b0 br]|]; exact SAME. }
+  destruct (vt_int fwv) as [v|].
+  2:{ destruct bin as [[|b0 br]|]; exact SAME. }
+  destruct (word_ok t && word_ok v) eqn:RG.
+  2:{ assert (X : negb ((0 <=? t) && (t <=? 65535)) || negb ((0 <=? v) && (v <=? 65535)) = true).
+      { unfold word_ok in RG. destruct ((0 <=? t) && (t <=? 65535)); [|reflexivity].
+        destruct ((0 <=? v) && (v <=? 65535)); [discriminate|reflexivity]. }
+      rewrite X. destruct bin as [[|b0 br]|]; exact SAME. }
+  assert (X : negb ((0 <=? t) && (t <=? 65535)) || negb ((0 <=? v) && (v <=? 65535)) = false).
+  { unfold word_ok in RG. apply andb_true_iff in RG as [-> ->]. reflexivity. }
+  rewrite X. apply andb_true_iff in RG as [Wt Wv]. apply word_ok_iff in Wt, Wv.
+  destruct bin as [[|b0 br]|]; [exact SAME| |].
+  - (* an image is given *)
+    rewrite fw_lookup_store_same.
+    set (fwl := fw_store t v (prepare_fw (b0 :: br)) (o_fw (g_ota g))).
+    set (g0 := set_ota g (mkOta fwl (o_requested (g_ota g)) (o_unstarted (g_ota g)) (o_started (g_ota g)))).
+    assert (S0 : sess_inv (g_ota g0)) by (eapply same_sessions_inv; [|exact SI]; repeat split).
+    assert (I0 : ids_ok g0) by exact I.
+    destruct (update_fold_spec t v nids g0 S0 I0) as (S2 & I2 & F2 & C2 & L2 & J2 & D2 & M2 & K2 & A2 & R2).
+    exists (fold_left (update_one t v) nids g0). split; [reflexivity|]. split; [exact S2|]. split; [exact I2|].
+    split; [exact C2|]. split; [exact L2|]. split; [exact J2|]. split; [exact D2|]. split; [exact M2|].
+    split; [exact K2|]. split; [exact Wt|]. split; [exact Wv|]. split; [reflexivity|]. split; [reflexivity|].
+    split; [rewrite F2; exists (prepare_fw (b0 :: br)); apply fw_lookup_store_same|].
+    split; [exact F2|]. split; [exact A2|exact R2].
+  - (* no image: the key must be stored already *)
+    destruct (fw_lookup t v (o_fw (g_ota g))) as [f|] eqn:LK.
+    + set (g0 := set_ota g (mkOta (o_fw (g_ota g)) (o_requested (g_ota g)) (o_unstarted (g_ota g)) (o_started (g_ota g)))).
+      assert (S0 : sess_inv (g_ota g0)) by (eapply same_sessions_inv; [|exact SI]; repeat split).
+      assert (I0 : ids_ok g0) by exact I.
+      destruct (update_fold_spec t v nids g0 S0 I0) as (S2 & I2 & F2 & C2 & L2 & J2 & D2 & M2 & K2 & A2 & R2).
+      exists (fold_left (update_one t v) nids g0). split; [reflexivity|]. split; [exact S2|]. split; [exact I2|].
+      split; [exact C2|]. split; [exact L2|]. split; [exact J2|]. split; [exact D2|]. split; [exact M2|].
+      split; [exact K2|]. split; [exact Wt|]. split; [exact Wv|]. split; [reflexivity|]. split; [reflexivity|].
+      split; [rewrite F2; exists f; exact LK|]. split; [exact F2|]. split; [exact A2|exact R2].
+    + eexists. split; [reflexivity|]. split; [eapply same_sessions_inv; [|exact SI]; repeat split|].
+      split; [exact I|]. repeat (split; [reflexivity|]). split; [repeat split|]. split; reflexivity.
 Qed.
